@@ -38,7 +38,8 @@ FILE = {"absent": "out.json", "existing": "exist.json", "dir": "adir", "symlink-
         "symlink-abs-to-file": "abs_lnk", "symlink-to-dir": "dir_lnk", "existing-dotdot": os.path.join("sub", "..", "exist.json"),
         "absent-in-subdir": os.path.join("sub", "new.json")}
 PRECIOUS = ("exist.json", "keep.json", "lnk", "adir", "rel_lnk", "up_lnk", "abs_lnk", "dir_lnk")
-PW = {"none": None, "ascii": "pw", "nfkd-sensitive": "p\u00e4ss\ufb01\uff11\u2126", "blank-padded": "  two  blanks ", "empty": ""}
+PW = {"none": None, "ascii": "pw", "nfkd-sensitive": "p\u00e4ss\ufb01\uff11\u2126", "blank-padded": "  two  blanks ", "empty": "",
+      "json-like": '[ a ] { "k" : [ 1 , 2 ] } \\ "q" ,\n\t: [\n    x\n]'}
 
 
 def cmd_args(cmd, arg, password=None):
@@ -112,6 +113,15 @@ def make_dir():
     os.symlink(os.path.join("..", "exist.json"), os.path.join(d, "sub", "up_lnk"))
     os.symlink(os.path.join(d, "exist.json"), os.path.join(d, "abs_lnk"))
     os.symlink("adir", os.path.join(d, "dir_lnk"))
+    # bystanders: files an export routine might use as scratch next to the requested name (temporary, backup, lock,
+    # editor-swap names of every creatable target) - they exist already and are somebody's data
+    for target in ("out.json", os.path.join("sub", "new.json"), "nowhere.json"):
+        base, name = os.path.split(target)
+        stem = name.rsplit(".", 1)[0]
+        for by in (name + ".tmp", name + ".bak", name + "~", name + ".part", name + ".new", name + ".lock", name + ".swp",
+                   "." + name + ".swp", "." + name + ".tmp", stem + ".tmp", stem, "tmp", name + ".tmp~"):
+            with open(os.path.join(d, base, by), "w") as f:
+                f.write("BYSTANDER %s\n" % by)
     return d
 
 
